@@ -362,13 +362,45 @@ func c18CheckCaller(k *eng.Check, fn *ssa.Function, call ssa.CallInstruction, w 
 		return ok && f == c18OptsParents && r == optsRoot
 	}
 
+	// L is the function that loads the parents: fn itself, or a same-package helper that returns the parsed parents
+	// and their heights (its hash-list parameter must then be given opts.Parents and its error must be consumed)
+	L := fn
+	isHashes := isOptsParents
+	var hcall *ssa.Call
 	hs, ok := eng.Origin(args[w.heightsIdx]).(*ssa.MakeSlice)
 	if !ok {
-		k.Unknown("heights-from-parents", name+"#heights", "the heights argument", "not a locally made slice")
+		if ex, isEx := eng.Origin(args[w.heightsIdx]).(*ssa.Extract); isEx {
+			if hc, isCall := ex.Tuple.(*ssa.Call); isCall {
+				if h := hc.Call.StaticCallee(); h != nil && len(h.Blocks) > 0 && eng.FuncPkg(h) == eng.FuncPkg(fn) {
+					if hs = c18uReturnedSlice(h, ex.Index); hs != nil {
+						L, hcall, ok = h, hc, true
+					}
+				}
+			}
+		}
+	}
+	if !ok {
+		k.Unknown("heights-from-parents", name+"#heights", "the heights argument", "not a locally made slice (nor the result of a same-package loader that returns one)")
 		return
 	}
+	if hcall != nil {
+		k.FuncsSeen[L] = true
+		isHashes = func(v ssa.Value) bool {
+			p, isP := eng.Origin(v).(*ssa.Parameter)
+			if !isP {
+				return false
+			}
+			for pi, q := range L.Params {
+				if q == p {
+					return pi < len(hcall.Call.Args) && isOptsParents(hcall.Call.Args[pi])
+				}
+			}
+			return false
+		}
+		k.OnlyAfter("heights-from-parents", fn, "the commit is serialised only after the parent loader returned nil", eng.NewSet().AddI(call.(ssa.Instruction)), 1, eng.OkCut(hcall))
+	}
 	var parents ssa.Value
-	stores := c18uElemStores(fn, hs)
+	stores := c18uElemStores(L, hs)
 	good := len(stores) > 0
 	why := "no element of the heights slice is ever assigned"
 	at := pos
@@ -402,7 +434,7 @@ func c18CheckCaller(k *eng.Check, fn *ssa.Function, call ssa.CallInstruction, w 
 	}
 
 	// parents[j] = parse(parentValues[j]) ; parentValues = ReadManyValues(opts.Parents)
-	pstores := c18uElemStores(fn, parents)
+	pstores := c18uElemStores(L, parents)
 	good, why, at = len(pstores) > 0, "no element of the parsed-parents slice is ever assigned", pos
 	for _, s := range pstores {
 		ex, isEx := eng.Origin(s.Val).(*ssa.Extract)
@@ -433,7 +465,7 @@ func c18CheckCaller(k *eng.Check, fn *ssa.Function, call ssa.CallInstruction, w 
 			break
 		}
 		hashes := eng.PathArgs(rc)
-		if len(hashes) != 2 || !isOptsParents(hashes[1]) {
+		if len(hashes) != 2 || !isHashes(hashes[1]) {
 			good, why, at = false, "ReadManyValues is not given the Parents of the CommitOptions that is serialised", c.InstrPos(rc)
 			break
 		}
@@ -466,6 +498,11 @@ func c18CheckCaller(k *eng.Check, fn *ssa.Function, call ssa.CallInstruction, w 
 		switch eng.ShortType(a.Type()) {
 		case "[]*gen/fb/serial.Commit":
 			okP = eng.Origin(a) == parents
+			if hcall != nil {
+				// the caller sees the parsed parents as a result of the loader call
+				ex, isEx := eng.Origin(a).(*ssa.Extract)
+				okP = isEx && ex.Tuple == ssa.Value(hcall) && ssa.Value(c18uReturnedSlice(L, ex.Index)) == parents
+			}
 		case "[]store/hash.Hash":
 			okA = isOptsParents(a)
 		}
@@ -976,4 +1013,29 @@ func c18CheckLoadedHeights(k *eng.Check, datas []*ssa.Function, writers []c18Wri
 	if n < 3 {
 		k.Unknown("loaded-height", "store/datas", "stores to datas.Commit.height", fmt.Sprintf("%d found (confirmed floor 3: newCommitForValue, commitPtr, GetCommitParents)", n))
 	}
+}
+
+// c18uReturnedSlice: the locally made slice that h returns as result idx on every return where that result is not nil.
+func c18uReturnedSlice(h *ssa.Function, idx int) *ssa.MakeSlice {
+	var out *ssa.MakeSlice
+	for _, b := range h.Blocks {
+		for _, in := range b.Instrs {
+			ret, ok := in.(*ssa.Return)
+			if !ok {
+				continue
+			}
+			if idx >= len(ret.Results) {
+				return nil
+			}
+			if isNil(ret.Results[idx]) {
+				continue
+			}
+			ms, ok := eng.Origin(ret.Results[idx]).(*ssa.MakeSlice)
+			if !ok || (out != nil && out != ms) {
+				return nil
+			}
+			out = ms
+		}
+	}
+	return out
 }
